@@ -210,6 +210,46 @@ Proof.
 Qed.
 Print Assumptions no_write_hypothesis_necessary.
 
+(* two more shapes of shared mutable state that a refactoring can introduce into a compiled
+   object (self mutation tests, notes/C09.md §5), each refuted by a witness: *)
+
+(* a buffer kept in the compiled object and reused by every run: under the schedule 0,1,0,1 the
+   node of run 0 is handed the options of run 1 *)
+Theorem buffer_reuse_refuted :
+  exists sched g g',
+    grun bstep_shared sched g = Some g' /\ all_final bstep_shared g' = true /\
+    exists r r' s rs,
+      nth_error (snd g) 0 = Some r /\ nth_error (snd g') 0 = Some r' /\
+      solo_run bstep_shared 2 (fst g) r = Some (s, rs) /\
+      b_seen rs = Some (b_opts r) /\ b_seen r' <> Some (b_opts r).
+Proof. exact buffer_reuse_foreign_options. Qed.
+Print Assumptions buffer_reuse_refuted.
+
+(* a per-call step limit written into the compiled object: even WITHOUT overlap (schedule
+   0,0,1,1) the later call runs under the limit of the earlier one, and the record has changed *)
+Theorem sticky_option_refuted :
+  exists g g',
+    grun lstep_sticky [0; 0; 1; 1]%nat g = Some g' /\ all_final lstep_sticky g' = true /\
+    exists r r' s rs,
+      nth_error (snd g) 1 = Some r /\ nth_error (snd g') 1 = Some r' /\
+      solo_run lstep_sticky 2 (fst g) r = Some (s, rs) /\
+      l_used rs = Some 30%N /\ l_used r' = Some 5%N /\ fst g' <> fst g.
+Proof. exact sticky_limit_inherited. Qed.
+Print Assumptions sticky_option_refuted.
+
+(* the code as it is (graph_run.go:129-143: the limit of the call is a local of the run): every
+   call runs under its own override or the compiled limit, in every interleaving, and the
+   compiled limit is never changed *)
+Theorem per_call_limit_is_local :
+  forall sched g g',
+    grun lstep_local sched g = Some g' ->
+    fst g' = fst g /\
+    forall i r, nth_error (snd g) i = Some r -> l_pc r = 0%N ->
+    forall r', nth_error (snd g') i = Some r' -> final lstep_local (fst g') r' = true ->
+    l_used r' = Some (match l_override r with Some m => m | None => fst g end).
+Proof. exact lstep_local_uses_own_limit. Qed.
+Print Assumptions per_call_limit_is_local.
+
 (* the repaired converter (error local to the closure, i.e. per-run state): every run returns
    its own error in every interleaving with any number of other runs *)
 Theorem repaired_converter_returns_own_error :
@@ -264,3 +304,18 @@ Example engine_three_calls_interleaved :
        Some "err:node:f"%string; Some "err:maxsteps"%string] /\
     erun ex_obj 31 ex_call1 = option_map (fun r => match eobs false r with Some o => o | None => (""%string, []) end) (nth_error rs' 0).
 Proof. exact ex_interleaved. Qed.
+
+(* the driver of the check on an observed interleaving that is longer than the model's runs
+   (entries of runs that have returned are skipped) and stops before they are complete (the
+   rest is finished): the hypotheses of driver_result_is_solo_result / engine_check_compares_with_solo
+   are satisfiable, with three different outcomes *)
+Example engine_driver_on_observed_interleaving :
+  exists g1 t1 g2 t2,
+    gdrive (lift estep) [2; 2; 0; 1; 2; 2; 2; 2; 2; 2; 0; 1; 1; 0]%nat (ex_obj, map (einit ex_obj) [ex_call1; ex_call2; ex_call3]) = (g1, t1) /\
+    gfinish (lift estep) 80 (seq 0 3) g1 = (g2, t2) /\
+    all_final (lift estep) g2 = true /\
+    t1 = [2; 2; 0; 1; 2; 2; 2; 2; 0; 1; 1; 0]%nat /\ t2 = [0; 0; 0; 1; 1]%nat /\
+    map (fun r => option_map fst (eobs false r)) (snd g2) =
+      [Some "ok:V{<tSELF> n=2 lim=2 h=({p0=V{<tSELF> n=2 lim=2 h=in2>a[o=d0]>w>w>f>p0}})>j}"%string;
+       Some "err:node:f"%string; Some "err:maxsteps"%string].
+Proof. exact ex_driver. Qed.
